@@ -4,8 +4,8 @@
    Filter sets are multisets of at most MaxTotal items (at most MaxPerKind of one kind); an item is one of NB base
    filters (overlapping criteria from Filter.tla's universe: id, type alone and combined with an id, payload, lifecycle;
    enabled or not, negated or not) as positive, negative or event filter, or one of 3 marker filters.
-   The message table holds 11 messages; several of them agree on the address (ecu, apid, ctid) and differ in exactly one
-   other field (message type, verbose bit, text, lifecycle), so that a decision which wrongly depends on the history of the
+   The message table holds 15 messages; for every field (ecu, apid, ctid, message type, verbose bit, text, lifecycle, and
+   ecu without extended header) there is a message that differs from message 1 (resp. 8) in exactly that field, so that a decision which wrongly depends on the history of the
    stream (e.g. one re-used from the previous message) differs from Keep. The streams are a few short ones (incl. the
    empty one) and one Euler circuit in which EVERY ordered pair of messages (also a message with itself) is adjacent once.
      SPECIFICATION Spec  : a set is chosen, then a stream, then the stream filter is stepped message by message;
@@ -31,7 +31,9 @@ Pool(k) == << E(k),                                                        \* 1 
               [E(k) EXCEPT !.type = TVmm(65)],                             \* 9 exactly verbose log info (verb_mstp_mtin 0x41)
               [E(k) EXCEPT !.ecu = Lit(<<A, B>>), !.type = TMstp(3)],      \* 10 control messages of ecu AB
               [EmptyFilter(k, TRUE, TRUE) EXCEPT !.type = TMstp(3)],       \* 11 not control
-              [E(k) EXCEPT !.lcs = LcList(<<2>>)]                          \* 12 lifecycle 2
+              [E(k) EXCEPT !.lcs = LcList(<<2>>)],                         \* 12 lifecycle 2
+              [E(k) EXCEPT !.ctid = Lit(<<B, A>>)],                        \* 13 ctid BA
+              [E(k) EXCEPT !.ecu = Lit(<<B, A>>), !.apid = Lit(<<A, B>>)]  \* 14 apid AB on ecu BA
            >>
 NB == Len(Pool(0))
 ItemTab == Pool(KPos) \o Pool(KNeg) \o Pool(KEvent) \o <<Pool(KMarker)[1], Pool(KMarker)[3], Pool(KMarker)[6]>>
@@ -59,16 +61,24 @@ Msgs == << Msg(AB0, TRUE, AB0, BA0, 65, FooBar, 1),                             
            Msg(AB0, FALSE, Zero4, Zero4, 0, <<2, 1, 18>>, 1),                        \* 8  no extended header, "bar"
            Msg(AB0, FALSE, Zero4, Zero4, 0, <<106, 15, 15>>, 2),                     \* 9  = 8 but "Foo", lifecycle 2
            Msg(<<A, 0, 0, 0>>, TRUE, <<B, 0, 0, 0>>, BA0, 65, <<>>, 2),              \* 10 other address, empty text
-           Msg(AB0, TRUE, AB0, AB0, 38, <<2, 1, 18>>, 3) >>                          \* 11 = address X but ctid AB, control
+           Msg(AB0, TRUE, AB0, AB0, 38, <<2, 1, 18>>, 3),                            \* 11 = address X but ctid AB, control
+           Msg(BA0, TRUE, AB0, BA0, 65, FooBar, 1),                                  \* 12 = 1 but ecu BA (same apid/ctid on another ecu)
+           Msg(BA0, FALSE, Zero4, Zero4, 0, <<2, 1, 18>>, 1),                        \* 13 = 8 but ecu BA (no extended header)
+           Msg(AB0, TRUE, <<A, A, 0, 0>>, BA0, 65, FooBar, 1),                       \* 14 = 1 but apid AA
+           Msg(AB0, TRUE, AB0, AB0, 65, FooBar, 1) >>                                \* 15 = 1 but ctid AB
 NM == Len(Msgs)
-\* Euler circuit of the complete directed graph (with loops) on the 11 messages
-Euler == << 1, 1, 2, 1, 3, 1, 4, 1, 5, 1, 6, 1, 7, 1, 8, 1, 9, 1, 10, 1, 11, 2, 2, 3, 2, 4, 2, 5, 2, 6, 2, 7, 2, 8, 2, 9, 2, 10, 2, 11,
-            3, 3, 4, 3, 5, 3, 6, 3, 7, 3, 8, 3, 9, 3, 10, 3, 11, 4, 4, 5, 4, 6, 4, 7, 4, 8, 4, 9, 4, 10, 4, 11, 5, 5, 6, 5, 7, 5, 8, 5, 9,
-            5, 10, 5, 11, 6, 6, 7, 6, 8, 6, 9, 6, 10, 6, 11, 7, 7, 8, 7, 9, 7, 10, 7, 11, 8, 8, 9, 8, 10, 8, 11, 9, 9, 10, 9, 11, 10, 10,
-            11, 11, 1 >>
-ASSUME NM = 11 /\ \A a \in 1..NM : \A b \in 1..NM : \E p \in 1..(Len(Euler) - 1) : Euler[p] = a /\ Euler[p + 1] = b
+\* Euler circuit of the complete directed graph (with loops) on the messages
+Euler == << 1, 1, 2, 1, 3, 1, 4, 1, 5, 1, 6, 1, 7, 1, 8, 1, 9, 1, 10, 1, 11, 1, 12, 1, 13, 1, 14, 1, 15, 2, 2, 3, 2, 4, 2, 5, 2,
+            6, 2, 7, 2, 8, 2, 9, 2, 10, 2, 11, 2, 12, 2, 13, 2, 14, 2, 15, 3, 3, 4, 3, 5, 3, 6, 3, 7, 3, 8, 3, 9, 3, 10, 3, 11, 3,
+            12, 3, 13, 3, 14, 3, 15, 4, 4, 5, 4, 6, 4, 7, 4, 8, 4, 9, 4, 10, 4, 11, 4, 12, 4, 13, 4, 14, 4, 15, 5, 5, 6, 5, 7, 5,
+            8, 5, 9, 5, 10, 5, 11, 5, 12, 5, 13, 5, 14, 5, 15, 6, 6, 7, 6, 8, 6, 9, 6, 10, 6, 11, 6, 12, 6, 13, 6, 14, 6, 15, 7,
+            7, 8, 7, 9, 7, 10, 7, 11, 7, 12, 7, 13, 7, 14, 7, 15, 8, 8, 9, 8, 10, 8, 11, 8, 12, 8, 13, 8, 14, 8, 15, 9, 9, 10, 9,
+            11, 9, 12, 9, 13, 9, 14, 9, 15, 10, 10, 11, 10, 12, 10, 13, 10, 14, 10, 15, 11, 11, 12, 11, 13, 11, 14, 11, 15, 12,
+            12, 13, 12, 14, 12, 15, 13, 13, 14, 13, 15, 14, 14, 15, 15, 1 >>
+ASSUME NM = 15 /\ \A a \in 1..NM : \A b \in 1..NM : \E p \in 1..(Len(Euler) - 1) : Euler[p] = a /\ Euler[p + 1] = b
 \* the last stream is the one the driver also feeds with a paced producer (filter on its own thread)
-Streams == << Euler, <<>>, <<2, 1, 2, 2>>, <<6, 7, 1, 5>>, <<11, 10, 9, 8>>, <<1, 1, 1, 1>>, <<3, 7, 10, 1, 9, 5>> >>
+Desc == [k \in 1..NM |-> NM + 1 - k]     \* every message once, in the opposite order of first occurrence
+Streams == << Euler, <<>>, <<2, 1, 2, 2>>, <<6, 7, 1, 5>>, <<11, 10, 9, 8>>, <<1, 1, 1, 1>>, Desc, <<3, 7, 10, 1, 9, 5>> >>
 NS == Len(Streams)
 
 ASSUME PrintT(<<"TAB", ToJson([pool |-> ItemTab, msgs |-> Msgs, streams |-> Streams])>>)
